@@ -404,9 +404,9 @@ def shards(tier, seed):
     n_h = 10 if tier == 'quick' else 16
     for k in range(n_h):
         out.append(dict(kind='hyp', seed=seed * 1000 + k,
-                        n=1500 if tier == 'quick' else 40000))
+                        n=1500 if tier == 'quick' else 150000))
     out.append(dict(kind='workbook', seed=seed * 1000 + 99,
-                    n=80 if tier == 'quick' else 1500))
+                    n=80 if tier == 'quick' else 4000))
     out.append(dict(kind='purity'))
     return out
 
